@@ -172,7 +172,8 @@ REWRITES = [
     R("c16-extra-minifystring-call", T, "invariant", "add-unrelated-func", "js: another minifyString(x, false) caller", extra_minifystring_call),
     R("c16-gate-hoisted", T, "invariant", "extract-local", "js: minVersion(2016) hoisted into a local bool used in the condition", gate_hoisted, tests=["./js/..."]),
     R("c16-gate-nested", T, "invariant", "equivalent-form", "js: `a && minVersion(2016)` split into two nested ifs", gate_nested, tests=["./js/..."]),
-    R("c16-gate-func-renamed", T, "invariant", "rename-func", "js: method minVersion -> atLeast", gate_func_renamed, tests=["./js/..."]),
+    R("c16-gate-func-renamed", T, "invariant", "rename-func", "js: method minVersion -> atLeast", gate_func_renamed, tests=["./js/..."],
+      known="JsVersionGates, OptionSites are identical; C01D's JsHoistFacts (owned by the C01D builder) matches the text `m.o.minVersion(2019)` of the catch-binding condition"),
     R("c16-gate-receiver-renamed", T, "invariant", "rename-receiver", "js: minVersion receiver and parameter renamed", gate_receiver_renamed),
     R("c16-producer-func-renamed", T, "invariant", "rename-func", "js: toNullishExpr -> toNullishOrOptional", producer_func_renamed, tests=["./js/..."]),
     R("c16-gate-cond-swapped", T, "invariant", "equivalent-form", "js: conjuncts of the 2019 gate swapped", gate_cond_swapped),
